@@ -11,24 +11,9 @@ from .. import build, core
 
 U32 = (1 << 32) - 1
 
-# Findings this check knows about.  Entries found in /verif/KNOWN_FINDINGS.json take precedence; the
-# ones below are the *proposed* entries (reported to the maintainer) so that the check is usable before
-# they are merged.  They suppress nothing but the exact matcher region.
-PROPOSED_FINDINGS = [
- {"id": "F6", "property": "C17", "status": "known",
-  "what": "OBJECT_IDENTIFIER_get_single_arc accumulates into a 32-bit accum, so `accum <= ASN_OID_ARC_MAX` is vacuous: "
-          "a sub-identifier >= 2^32 is returned modulo 2^32 with rc > 0 instead of ERANGE (90 80 80 80 00 = 2^32 reads as arc 0)",
-  "witness": {"op": "oid_get1 9080808000", "c_output": "ok 0 5"},
-  "matcher": "op in {oid_get1, oid_get, roid_get} and some sub-identifier of the octet string denotes a value >= 2^32",
-  "lean_counterexample": "Asn1c.Props.C17.getSingleArc_overflow_wraps_cex"},
- {"id": "F60", "property": "C17", "status": "known",
-  "what": "asn_GT2time*/asn_UT2time treat the valid instant time_t -1 (1969-12-31 23:59:59Z) as an error: "
-          "`if(tloc == -1) { errno = EINVAL; return -1; }`, so asn_time2GT(-1) does not convert back and "
-          "GeneralizedTime_constraint rejects 19691231235959Z",
-  "witness": {"op": "GT2t 31393639313233313233353935395a 1 0", "c_output": "einval"},
-  "matcher": "op in {GT2t, UT2t, GT2t_prec} and the text denotes the instant -1",
-  "lean_counterexample": "Asn1c.Props.C17.GT2time_minus_one_cex"},
-]
+# F6 (get_single_arc wrapped sub-identifiers >= 2^32 modulo 2^32) and F60 (time_t -1 reported as an error) are
+# repaired: no matcher, no skip region - a sub-identifier >= 2^32 must be answered with ERANGE and the instant -1
+# must convert like any other instant.
 
 # ---------------------------------------------------------------- oracles (independent of the Lean model)
 
@@ -177,7 +162,7 @@ def gen_octets(ctx):
     import itertools
     for k in (2, 3, 4):
         for t in itertools.product(alpha, repeat=k): out.append(bytes(t))
-    big = [U32, U32 + 1, U32 + 2, (1 << 32) + 10, (1 << 33), (1 << 35) - 1, 1 << 35, (1 << 35) + 7,
+    big = [U32, U32 + 1, U32 + 2, (1 << 32) - 128, (1 << 32) + 127, (1 << 32) + 128, (1 << 32) + 10, (1 << 33), (1 << 35) - 1, 1 << 35, (1 << 35) + 7,
            (1 << 39) + 1, (1 << 42) - 1, (1 << 63), (1 << 64) + 3, (1 << 70) + 5]
     for v in ARC_B + big:
         for pad in (0, 1, 2, 3):
@@ -350,11 +335,6 @@ def tz_list():
 
 def run(ctx):
     selftest()
-    have = {f["id"] for f in ctx.findings}
-    for f in PROPOSED_FINDINGS:
-        if f["id"] not in have:
-            ctx.findings.append(f)
-            ctx.assumptions.append(f"finding {f['id']} is not in KNOWN_FINDINGS.json yet; using the proposed entry embedded in vlib/props/c17.py")
     drv = drivers()
     ctx.lean()
     ctx.cov["rule"] = ("boundary-exhaustive + random operations on the real OID / time helper functions, time ops under "
@@ -439,19 +419,19 @@ def run_oid(ctx, drv, pfail):
                     cur = (cur << 7) | (b & 0x7f)
                     if not b & 0x80: first, n = cur, i + 1; break
                 if not bs: exp = "none"
-                elif first is None: exp = "!ok"
+                elif first is None: exp = "!ok"         # the buffer ends inside a sub-identifier: EINVAL (or ERANGE)
                 elif first <= U32: exp = f"ok {first} {n}"
-                else: exp = "!ok"
+                else: exp = "erange"                    # a complete sub-identifier that does not fit asn_oid_arc_t
                 if exp == "!ok":
-                    if c.startswith("ok"):
-                        pfail.append((l, c, "no (or an overflowing) sub-identifier, yet a value is returned", "F6" if first is not None else None))
+                    if c not in ("einval", "erange"):
+                        pfail.append((l, c, "no complete sub-identifier, yet no EINVAL/ERANGE", None))
                 elif c != exp: pfail.append((l, c, f"expected {exp}", None))
             else:
                 slots = int(t[2])
                 if vals is None or (op == "oid_get" and not vals):
                     if c.startswith("ok"): pfail.append((l, c, "malformed OID contents accepted", None))
                 elif any(v > U32 for v in vals):
-                    if c.startswith("ok"): pfail.append((l, c, "sub-identifier >= 2^32 returned as a wrapped arc", "F6"))
+                    if c != "erange": pfail.append((l, c, "a sub-identifier >= 2^32 must be answered with ERANGE", None))
                 else:
                     if op == "oid_get":
                         v0 = vals[0]
@@ -596,7 +576,7 @@ def run_time(ctx, drv, pfail):
                 if orc is None: continue
                 t, fr = orc
                 if not c.startswith("ok "):
-                    pfail.append((l + " TZ=" + tz, c, f"valid time text must convert (to {t})", "F60" if t == -1 else None)); continue
+                    pfail.append((l + " TZ=" + tz, c, f"valid time text must convert (to {t})", None)); continue
                 got = int(c.split()[1])
                 if got != t: pfail.append((l + " TZ=" + tz, c, f"expected time {t}", None)); continue
                 if op == "GT2t":
@@ -624,10 +604,10 @@ def run_time(ctx, drv, pfail):
                     if (c_[1], c_[2]) == (2, 29) and not (y2 % 4 == 0 and (y2 % 100 != 0 or y2 % 400 == 0)):
                         continue       # Feb 29 of a year whose image in the window is not a leap year
                     t2 = days_from_civil(y2, c_[1], c_[2]) * 86400 + c_[3] * 3600 + c_[4] * 60 + c_[5]
-                    if not (c or "").startswith(f"ok {t2} "): pfail.append((l + " ; " + l2, c, f"window image {t2} expected", "F60" if t2 == -1 else None))
+                    if not (c or "").startswith(f"ok {t2} "): pfail.append((l + " ; " + l2, c, f"window image {t2} expected", None))
                     continue
                 if c is None or not c.startswith(f"ok {t} "):
-                    pfail.append((l + " ; " + l2, c, f"round trip must return {t}", "F60" if t == -1 else None)); continue
+                    pfail.append((l + " ; " + l2, c, f"round trip must return {t}", None)); continue
                 if kind == "GT" and (0 < fv < 10 ** fd):
                     gfv, gfd = int(c.split()[2]), int(c.split()[3])
                     efd = min(fd, 9); efv = fv // 10 ** (fd - efd)
@@ -674,7 +654,7 @@ def run_time(ctx, drv, pfail):
             nP += 1
             t = orc[0] - off
             if not c.startswith(f"ok {t} "):
-                pfail.append((l + " TZ=" + tz, c, f"local time text in zone {off:+d}s must give {t}", "F60" if t == -1 else None))
+                pfail.append((l + " TZ=" + tz, c, f"local time text in zone {off:+d}s must give {t}", None))
     ctx.cov["distribution"]["time_points"] = len(times)
     ctx.cov["predicate"]["time"] = {"cases": nP, "failures": len(pfail) - nP0}
 
